@@ -237,6 +237,8 @@ func (r *receiver) run(ctx context.Context) error {
 				var metaOnly bool
 				if metadataTransfer {
 					if path == metadataPath {
+						// not transferred, but it still occupies an id
+						i++
 						continue
 					}
 					n := p.Stat.SizeVT()
